@@ -126,7 +126,11 @@ void RSAggregator::TransferIheritedData() {
 void RSAggregator::UpdateReferences() {
   const auto translator = rslang::TFFactory::GetTransition(nameSubstitutes);
   for (const auto uid : insertedCsts) {
+    // Note: convention is a free text, so only known names are translated and nothing is marked as error
+    auto convention = output.GetRS(uid).convention;
+    rslang::SubstituteGlobals(convention, nameSubstitutes);
     output.core.Translate(uid, translator);
+    output.core.SetConventionFor(uid, convention);
   }
 }
 
